@@ -571,6 +571,18 @@ def _directed(rng):
                 ['mul', ut(1), one(v)], ['mul', one(v), ut(1)], ['mulnum', ut(1), ['int', '1/1'], 'l'],
                 ['divnum', ut(2), _numspec(rng, v)], ['rdiv', _numspec(rng, v), ut(1)],
                 ['rdiv', ['dec', '1/1'], ut(-1)], ['pow', ut(1), 0], ['pow', ut(0), 2])]
+            # operators applied to a NORMAL FORM that carries a numeric factor (its cached
+            # "already normalized" state must not leak into the result: seeded C07-d)
+            for v2 in (v, F(5), F(10), F(1, 3)):
+                t = c.mk([[_nelem(rng, v2), 1], [u, 1]])
+                nt = ['norm', t]
+                for op in (lambda x: ['recip', x], lambda x: ['pow', x, -1],
+                           lambda x: ['pow', x, 2], lambda x: ['rdiv', ['int', '1/1'], x],
+                           lambda x: ['divnum', x, _numspec(rng, v2)],
+                           lambda x: ['mul', x, x], lambda x: ['div', ut(1), x]):
+                    out.append(c.case(['eq', op(nt), op(t)]))
+                    out.append(c.case(['hasheq', op(nt), op(t)]))
+                    out.append(c.case(['items', ['norm', op(nt)]]))
             if o:
                 ot = lambda e: c.mk([[['u', o], e]])           # noqa: E731
                 out += [c.case(['items', x]) for x in (
